@@ -1,6 +1,7 @@
 import GeosModel.Proofs.Valid.NodeTopo
 import GeosModel.Proofs.Valid.RefInv
 import GeosModel.Proofs.Valid.CrossSymm
+import GeosModel.Proofs.Valid.RingNested
 /-!
 # C05 — isValid and isSimple decide the OGC rules exactly
 
@@ -117,6 +118,91 @@ example : isCrossing ⟨0, 0⟩ ⟨1, 0⟩ ⟨-1, 0⟩ ⟨0, 1⟩ ⟨1, 1⟩ = f
 example : isCrossing ⟨0, 0⟩ ⟨1, 0⟩ ⟨-1, 0⟩ ⟨2, 0⟩ ⟨0, -1⟩ = false := by decide     -- collinear overlap is not a crossing
 example : isInteriorSegment ⟨0, 0⟩ ⟨0, -1⟩ ⟨1, 0⟩ ⟨1, -1⟩ = true := by decide
 example : compareAngle ⟨0, 0⟩ ⟨1, 0⟩ ⟨-1, 0⟩ = -1 ∧ compareAngle ⟨0, 0⟩ ⟨-1, 0⟩ ⟨-1, -1⟩ = -1 ∧ compareAngle ⟨0, 0⟩ ⟨2, 2⟩ ⟨1, 1⟩ = 0 := by decide
+
+/-! ## CORE, second part: the nesting decision `PolygonTopologyAnalyzer::isRingNested`
+
+`Model/Valid/RingNested.lean` is `isRingNested` with its helpers (`findNonEqualVertex`, `isIncidentSegmentInRing`,
+`intersectingSegIndex`, `findRingVertexPrev/Next`, `Orientation::isCCWArea` / `Area::ofRingSigned`) branch by branch; it is
+tied to the real function by the stream `ring-nested`.  This one decision is behind four rules of `IsValidOp` (hole in
+shell, nested holes, nested shells, shell inside a hole of another element). -/
+
+/-- **the two sides of a corner are complementary**: exchanging the arms of a proper corner (what `isIncidentSegmentInRing`
+does for a counter-clockwise target ring) negates `isInteriorSegment`, for every direction that is not along an arm -/
+theorem isInteriorSegment_swap_arms (n a0 a1 b : Pt) (h0 : a0 ≠ n) (h1 : a1 ≠ n) (hb : b ≠ n)
+    (hx : compareAngle n a0 a1 ≠ 0) (hp0 : compareAngle n b a0 ≠ 0) (hp1 : compareAngle n b a1 ≠ 0) :
+    isInteriorSegment n a1 a0 b = !isInteriorSegment n a0 a1 b :=
+  Valid.isInteriorSegment_swap_arms n a0 a1 b h0 h1 hb hx hp0 hp1
+
+/-- **a crossing is "one edge on each side"**: for edges `b0`, `b1` off the arms of a proper corner, `isCrossing` holds
+exactly when `isInteriorSegment` gives different answers for `b0` and `b1` (the two C++ functions are consistent) -/
+theorem isCrossing_eq_sides_differ (n a0 a1 b0 b1 : Pt) (h0 : a0 ≠ n) (h1 : a1 ≠ n) (hb0 : b0 ≠ n) (hb1 : b1 ≠ n)
+    (hx : compareAngle n a0 a1 ≠ 0) (hp0 : compareAngle n b0 a0 ≠ 0) (hp1 : compareAngle n b0 a1 ≠ 0)
+    (hq0 : compareAngle n b1 a0 ≠ 0) (hq1 : compareAngle n b1 a1 ≠ 0) :
+    isCrossing n a0 a1 b0 b1 = (isInteriorSegment n a0 a1 b0 != isInteriorSegment n a0 a1 b1) :=
+  Valid.isCrossing_eq_sides n a0 a1 b0 b1 h0 h1 hb0 hb1 hx hp0 hp1 hq0 hq1
+
+/-- **only the rays matter** (`isInteriorSegment`): replacing `a0`, `a1`, `b` by any other points on the same rays from the
+node — which is what the repeated-point skipping of `findNonEqualVertex` / `findRingVertexPrev/Next` and the choice of the
+segment end instead of a nearer point amount to — does not change the answer -/
+theorem isInteriorSegment_rays (n a0 a1 b a0' a1' b' : Pt) (h0 : a0 ≠ n) (h1 : a1 ≠ n) (hb : b ≠ n)
+    (h0' : a0' ≠ n) (h1' : a1' ≠ n) (hb' : b' ≠ n)
+    (e0 : compareAngle n a0 a0' = 0) (e1 : compareAngle n a1 a1' = 0) (eb : compareAngle n b b' = 0) :
+    isInteriorSegment n a0' a1' b' = isInteriorSegment n a0 a1 b :=
+  Valid.isInteriorSegment_rays n a0 a1 b a0' a1' b' h0 h1 hb h0' h1' hb' e0 e1 eb
+
+/-- **only the rays matter** (`isCrossing`) -/
+theorem isCrossing_rays (n a0 a1 b0 b1 a0' a1' b0' b1' : Pt) (h0 : a0 ≠ n) (h1 : a1 ≠ n) (hb0 : b0 ≠ n) (hb1 : b1 ≠ n)
+    (h0' : a0' ≠ n) (h1' : a1' ≠ n) (hb0' : b0' ≠ n) (hb1' : b1' ≠ n)
+    (e0 : compareAngle n a0 a0' = 0) (e1 : compareAngle n a1 a1' = 0)
+    (f0 : compareAngle n b0 b0' = 0) (f1 : compareAngle n b1 b1' = 0) :
+    isCrossing n a0' a1' b0' b1' = isCrossing n a0 a1 b0 b1 :=
+  Valid.isCrossing_rays n a0 a1 b0 b1 a0' a1' b0' b1' h0 h1 hb0 hb1 h0' h1' hb0' hb1' e0 e1 f0 f1
+
+/-- the C++ node functions are translation invariant (all points, no side conditions) -/
+theorem nodeTopology_translate (t n a0 a1 b0 b1 : Pt) :
+    compareAngle (t.shift n) (t.shift a0) (t.shift a1) = compareAngle n a0 a1 ∧
+    isCrossing (t.shift n) (t.shift a0) (t.shift a1) (t.shift b0) (t.shift b1) = isCrossing n a0 a1 b0 b1 ∧
+    isInteriorSegment (t.shift n) (t.shift a0) (t.shift a1) (t.shift b0) = isInteriorSegment n a0 a1 b0 :=
+  ⟨Valid.compareAngle_shift t n a0 a1, Valid.isCrossing_shift t n a0 a1 b0 b1, Valid.isInteriorSegment_shift t n a0 a1 b0⟩
+
+/-- **`Orientation::isCCWArea`** (the x-shifted shoelace loop of `Area::ofRingSigned`) **is the sign of the specification
+area** on every closed ring: true exactly when `Kernel.area2` is positive -/
+theorem isCCWArea_iff_area2_pos (ring : List Pt) (hc : RayCount.Closed ring) : isCCWArea ring = true ↔ 0 < area2 ring :=
+  Valid.isCCWArea_iff ring hc
+
+/-- reversing a closed ring of non-zero area flips `isCCWArea` — so the arms handed to `isInteriorSegment` by
+`isIncidentSegmentInRing` are exchanged exactly when the ring is traversed the other way -/
+theorem isCCWArea_reverse (ring : List Pt) (hc : RayCount.Closed ring) (ha : area2 ring ≠ 0) :
+    isCCWArea ring.reverse = !isCCWArea ring :=
+  Valid.isCCWArea_reverse ring hc ha
+
+/-- **`isRingNested` off the target ring is exact point-in-ring**: when the start vertex of the test ring does not lie on
+the closed target ring, the model never takes the throwing branch and answers exactly the even–odd specification
+`Kernel.locateInRing` of that vertex -/
+theorem isRingNested_off_ring (p0 : Pt) (rest target : List Pt) (hc : RayCount.Closed target)
+    (hoff : locateInRing p0 target ≠ .boundary) :
+    isRingNested (p0 :: rest) target = some (decide (locateInRing p0 target = .interior)) :=
+  Valid.isRingNested_off_ring p0 rest target hc hoff
+
+/-- **`isRingNested` on the target ring is the node topology of the first test segment**: the answer is
+`isInteriorSegment` of the first non-repeated test vertex against the corner of the target ring at the start vertex -/
+theorem isRingNested_on_ring (p0 : Pt) (rest target : List Pt) (hc : RayCount.Closed target)
+    (hon : locateInRing p0 target = .boundary) :
+    isRingNested (p0 :: rest) target =
+      (cornerAt p0 target).map fun c => isInteriorSegment p0 c.1 c.2 (findNonEqualVertex (p0 :: rest) p0) :=
+  Valid.isRingNested_on_ring p0 rest target hc hon
+
+/-! non-vacuity: the arch of the seeded-change demo.  `B = [0,40]×[0,10]` lies under the arch `A`, outside it, touching its
+three teeth at both ends and the midpoint of its first segment; `C` lies inside the slab of `A`. -/
+def archA : List Pt := [⟨0, 10⟩, ⟨5, 20⟩, ⟨15, 20⟩, ⟨20, 10⟩, ⟨25, 20⟩, ⟨35, 20⟩, ⟨40, 10⟩, ⟨45, 20⟩, ⟨45, -10⟩, ⟨55, -10⟩,
+  ⟨55, 30⟩, ⟨-15, 30⟩, ⟨-15, -10⟩, ⟨-5, -10⟩, ⟨-5, 20⟩, ⟨0, 10⟩]
+example : isRingNested [⟨0, 10⟩, ⟨40, 10⟩, ⟨40, 0⟩, ⟨0, 0⟩, ⟨0, 10⟩] archA = some false := by decide
+example : isRingNested [⟨40, 10⟩, ⟨0, 10⟩, ⟨0, 0⟩, ⟨40, 0⟩, ⟨40, 10⟩] archA = some false := by decide
+example : isRingNested [⟨0, 10⟩, ⟨40, 10⟩, ⟨40, 0⟩, ⟨0, 0⟩, ⟨0, 10⟩] archA.reverse = some false := by decide
+example : isRingNested [⟨10, 22⟩, ⟨30, 22⟩, ⟨30, 28⟩, ⟨10, 28⟩, ⟨10, 22⟩] archA = some true := by decide
+example : isRingNested [⟨0, 10⟩, ⟨3, 18⟩, ⟨-3, 18⟩, ⟨0, 10⟩] archA = some true := by decide      -- inside the first tooth, starting at its tip
+example : isCCWArea archA = true ∧ isCCWArea archA.reverse = false := by decide
+example : isInteriorSegment ⟨0, 0⟩ ⟨1, 0⟩ ⟨0, 1⟩ ⟨1, 1⟩ = true ∧ isInteriorSegment ⟨0, 0⟩ ⟨0, 1⟩ ⟨1, 0⟩ ⟨1, 1⟩ = false := by decide
 
 /-! ## SPEC: the reference evaluator -/
 
